@@ -9,7 +9,7 @@
 EXTENDS RuleSet, TLC, Json
 
 CONSTANTS MaxRules,
-          PoolSel       \* "all": the rule pool below; "pairs": only its last four rules (two pairs of rules that are EQUAL as
+          PoolSel       \* "all": the rule pool below; "pairs": only its last six rules (two pairs of rules that are EQUAL as
                         \* expressions under the library's notion of equality but not identical: 0.0 / -0.0, d1.0 / d1.00)
 VARIABLE c        \* [rules |-> sequence of pool indices, inp, fp]
 
@@ -33,8 +33,11 @@ RulePool == <<
   Bin("div", Val(Fl(1, 1, 0)), Val(VFloat(FZero(1)))),          \* +inf
   Bin("div", Val(Fl(1, 1, 0)), Val(VFloat(FZero(-1)))),         \* -inf: the same expression up to the sign of a zero
   VecE(<<Val(Dc(10, 1)), Val(St("d1.0"))>>),
-  VecE(<<Val(Dc(100, 2)), Val(St("d1.00"))>>) >>
-PoolIdx == IF PoolSel = "pairs" THEN (Len(RulePool) - 3)..Len(RulePool) ELSE 1..(Len(RulePool) - 4)
+  VecE(<<Val(Dc(100, 2)), Val(St("d1.00"))>>),
+  \* the cacheable f on two instants / two durations that differ only below one second
+  VecE(<<Call(S("f"), Val(VDT(Z(1, <<17536, 11275, 28293, 8108, 1>>)))), Call(S("f"), Val(VDT(Z(1, <<10624, 26534, 28293, 8108, 1>>))))>>),
+  VecE(<<Call(S("f"), Val(VDur(Z(1, <<31872, 5378, 1>>)))), Call(S("f"), Val(VDur(Z(1, <<24960, 20637, 1>>))))>>) >>
+PoolIdx == IF PoolSel = "pairs" THEN (Len(RulePool) - 5)..Len(RulePool) ELSE 1..(Len(RulePool) - 6)
 LongStr(n, last) == VStr([i \in 1..n |-> IF i = n THEN 48 + last ELSE 97 + (i % 7)])
 
 Inputs == << VMap(<< <<S("a"), I(1)>> >>), VMap(<< <<S("a"), I(2)>>, <<S("zz"), I(5)>> >>), I(7), VNone, VMap(<< <<S("a"), VNone>> >>),
